@@ -172,6 +172,7 @@ type FCase struct {
 	Doc     string   `json:"doc"` // the logical configuration as canonical JSON
 	Unknown []string `json:"unknown,omitempty"`
 	HasUnk  bool     `json:"has_unknown"`
+	Order   []int    `json:"order"` // order in which the six (format, strict) loads are performed (loaders share process-wide state)
 }
 
 func genF(t *rapid.T) FCase {
@@ -184,6 +185,7 @@ func genF(t *rapid.T) FCase {
 	}
 	b, _ := json.Marshal(tree)
 	c.Doc = string(b)
+	c.Order = rapid.Permutation([]int{0, 1, 2, 3, 4, 5}).Draw(t, "order")
 	if rapid.IntRange(0, 2).Draw(t, "inject") == 0 {
 		var nodes [][]string
 		mapNodes(tree, nil, &nodes)
@@ -229,34 +231,41 @@ func runF(c FCase) error {
 	if err != nil {
 		return fx.Inconclusive("render: %v", err)
 	}
-	for _, strict := range []bool{false, true} {
-		results := map[string]string{}
-		for _, f := range []string{"json", "yaml", "toml"} {
-			obj := newObj(c.Kind)
-			e := config.LoadConfigure(docs[f], obj, strict)
-			if c.HasUnk && strict {
-				if e == nil {
-					return fmt.Errorf("strict mode accepted the unknown key zzNotAField at %v in the %s rendering:\n%s", c.Unknown, f, docs[f])
-				}
-				continue
+	order := c.Order
+	if len(order) != 6 {
+		order = []int{0, 1, 2, 3, 4, 5}
+	}
+	fmts := []string{"json", "yaml", "toml"}
+	results := map[bool]map[string]string{false: {}, true: {}}
+	for _, k := range order {
+		f, strict := fmts[k%3], k >= 3
+		obj := newObj(c.Kind)
+		e := config.LoadConfigure(docs[f], obj, strict)
+		if c.HasUnk && strict {
+			if e == nil {
+				return fmt.Errorf("strict mode accepted the unknown key zzNotAField at %v in the %s rendering (load order %v):\n%s", c.Unknown, f, order, docs[f])
 			}
-			if e != nil {
-				return fmt.Errorf("%s rendering (strict=%v) of a valid configuration refused: %v\n%s", f, strict, e, docs[f])
-			}
-			tr, e := structTree(obj)
-			if e != nil {
-				return fmt.Errorf("re-marshal: %v", e)
-			}
-			results[f] = canonJSON(tr)
+			continue
 		}
+		if e != nil {
+			return fmt.Errorf("%s rendering (strict=%v, load order %v) of a valid configuration refused: %v\n%s", f, strict, order, e, docs[f])
+		}
+		tr, e := structTree(obj)
+		if e != nil {
+			return fmt.Errorf("re-marshal: %v", e)
+		}
+		results[strict][f] = canonJSON(tr)
+	}
+	for _, strict := range []bool{false, true} {
 		if c.HasUnk && strict {
 			continue
 		}
-		if results["json"] != results["yaml"] || results["json"] != results["toml"] {
-			return fmt.Errorf("the three formats load to different structures (strict=%v):\n json %s\n yaml %s\n toml %s", strict, results["json"], results["yaml"], results["toml"])
+		r := results[strict]
+		if r["json"] != r["yaml"] || r["json"] != r["toml"] {
+			return fmt.Errorf("the three formats load to different structures (strict=%v):\n json %s\n yaml %s\n toml %s", strict, r["json"], r["yaml"], r["toml"])
 		}
-		if results["json"] != want {
-			return fmt.Errorf("loaded structure differs from the document (strict=%v, unknown key %v):\n doc    %s\n loaded %s", strict, c.Unknown, want, results["json"])
+		if r["json"] != want {
+			return fmt.Errorf("loaded structure differs from the document (strict=%v, unknown key %v):\n doc    %s\n loaded %s", strict, c.Unknown, want, r["json"])
 		}
 	}
 	return nil
